@@ -141,6 +141,12 @@ impl Finalize for Node {
         if !it.feat.fin {
             ev!("!fin-without-feature:{}", self.idc.get());
         }
+        // ... and only on garbage: not reachable from any pointer the program holds
+        // (asserted only while no callback of this operation has done anything yet: an earlier finalizer of the
+        // same pass may legitimately have resurrected this object)
+        if !it.cb_ops_ran.get() && it.reachable_from_tables(self.idc.get()) {
+            ev!("!fin-reachable:{}", self.idc.get());
+        }
         it.check_reachable_alive(self, "F");
         if tick(&it.f_fin) {
             raise_logged();
@@ -283,6 +289,12 @@ pub struct Interp {
     alloc_attempts: Cell<usize>,
     /// objects that report `already_finalized()` right after creation (created while finalizing)
     born_finalized: RefCell<HashSet<usize>>,
+    /// some operation of a callback script already ran during the current top-level operation
+    /// (callbacks may legitimately make garbage reachable again)
+    cb_ops_ran: Cell<bool>,
+    /// action ids of the cleanables in the `K` table, and the action id `clean()` is currently being called for
+    k_aids: RefCell<Vec<Option<usize>>>,
+    cleaning: RefCell<Vec<usize>>,
 }
 
 thread_local! {
@@ -353,6 +365,9 @@ impl Interp {
             explicit_collects: Cell::new(0),
             alloc_attempts: Cell::new(0),
             born_finalized: RefCell::new(HashSet::new()),
+            cb_ops_ran: Cell::new(false),
+            k_aids: RefCell::new((0..nk).map(|_| None).collect()),
+            cleaning: RefCell::new(Vec::new()),
         }
     }
 
@@ -440,6 +455,40 @@ impl Interp {
         } else {
             Err(id)
         }
+    }
+
+    /// Is object `target` reachable from the program's tables (and stashes) through any chain of `Cc` fields?
+    fn reachable_from_tables(&self, target: usize) -> bool {
+        let mut stack: Vec<*const Node> = match self.h.try_borrow() {
+            Ok(h) => h.iter().flatten().map(|cc| &**cc as *const Node).collect(),
+            Err(_) => return false,
+        };
+        if let Ok(st) = self.stash.try_borrow() {
+            for v in st.values() {
+                if let Some(cc) = v.first() {
+                    stack.push(&**cc as *const Node);
+                }
+            }
+        }
+        let mut seen: HashSet<usize> = HashSet::new();
+        while let Some(p) = stack.pop() {
+            let Ok(id) = self.node_ok(p) else { continue };
+            if id == target {
+                return true;
+            }
+            if !seen.insert(id) {
+                continue;
+            }
+            let n = unsafe { &*p };
+            for s in n.slots.iter().chain(n.uslots.0.iter()) {
+                if let Ok(b) = s.try_borrow() {
+                    if let Some(cc) = b.as_ref() {
+                        stack.push(&**cc as *const Node);
+                    }
+                }
+            }
+        }
+        false
     }
 
     /// All objects reachable from `start` through every `Cc` field (traced or not) are intact.
@@ -597,6 +646,9 @@ impl Interp {
     fn exec_op(&self, op: &Op, ctx: &Ctx) -> Ret {
         if matches!(op, Op::New(..) | Op::NewCyclic(..) | Op::Reg(..)) {
             self.alloc_attempts.set(self.alloc_attempts.get() + 1);
+        }
+        if self.cb_depth.get() > 0 && !matches!(op, Op::Nop) {
+            self.cb_ops_ran.set(true);
         }
         match op {
             Op::Nop => Ret::Ok,
@@ -1131,6 +1183,14 @@ impl Interp {
             let _captured = guard;
             ev!("K{}:{}", info2.aid.get().map(|a| a as i64).unwrap_or(-1), b01(is_tracing()));
             let _cb = InCallback::enter();
+            // C10 oracle: an action runs because its `clean()` was called, or because its Cleaner is being dropped
+            if let (Some(a), Some(map)) = (info2.aid.get(), info2.map_id.get()) {
+                let by_clean = it.cleaning.borrow().contains(&a);
+                let owner_alive = it.info(map).and_then(|m| it.info(m.owner)).map(|o| it.value_alive(&o)).unwrap_or(false);
+                if !by_clean && owner_alive {
+                    ev!("!action-early:{}", a);
+                }
+            }
             if let Some(a) = info2.aid.get() {
                 let mut ar = it.action_runs.borrow_mut();
                 let e = ar.entry(a).or_insert(0);
@@ -1144,10 +1204,50 @@ impl Interp {
             }
             it.run_script(script, None, None);
         };
+        let map_size = alloc::MAP_BOX_SIZE.load(std::sync::atomic::Ordering::Relaxed);
+        // watch allocations of map-box size during this call (nestable: `register` can be re-entered from finalizers)
+        let prev = alloc::with_tracker(|t| {
+            let prev = (t.watch_size, std::mem::take(&mut t.watched));
+            t.watch_size = if map_size == 0 { None } else { Some(map_size) };
+            prev
+        });
+        struct Unwatch(Option<(Option<usize>, Vec<usize>)>, std::rc::Rc<RefCell<Vec<usize>>>);
+        impl Drop for Unwatch {
+            fn drop(&mut self) {
+                let prev = self.0.take();
+                let mine = self.1.clone();
+                alloc::with_tracker(|t| {
+                    *mine.borrow_mut() = std::mem::take(&mut t.watched);
+                    if let Some((ws, w)) = prev {
+                        t.watch_size = ws;
+                        t.watched = w;
+                    }
+                });
+            }
+        }
+        let mine = std::rc::Rc::new(RefCell::new(Vec::new()));
+        let unwatch = Unwatch(prev, mine.clone());
         let cleanable = cleaner.register(action);
+        drop(unwatch);
         // `register` returned: the map exists, the action is stored, its side record exists
         let snap = cleaner.verif_map_snapshot().expect("cleaner map must exist after register");
-        let map_id = if !had_map {
+        if !had_map && self.id_of_box(snap.box_addr).is_some() {
+            // a nested `register` (from a finalizer of the collection started by this one) created the map;
+            // the map allocated by this call was transient: report its allocation and release
+            let transient: Vec<usize> = mine.borrow().clone();
+            for addr in transient {
+                if addr != snap.box_addr && self.id_of_box(addr).is_none() {
+                    let id = self.fresh_id();
+                    ev!("A{}:{}", id, map_size);
+                    if alloc::is_live(addr) {
+                        ev!("!transient-map-leaked:{}", id);
+                    } else {
+                        ev!("X{}", id);
+                    }
+                }
+            }
+        }
+        let map_id = if !had_map && self.id_of_box(snap.box_addr).is_none() {
             let id = self.fresh_id();
             self.register_box(id, BoxInfo { box_addr: snap.box_addr, kind: Kind::Map, node: std::ptr::null(), owner: owner_id });
             let size = alloc::block_at(snap.box_addr).map(|b| b.size).unwrap_or(0);
@@ -1163,6 +1263,7 @@ impl Interp {
         info.map_id.set(Some(map_id));
         self.actions.borrow_mut().push(info);
         self.k.borrow_mut()[k] = Some(cleanable);
+        self.k_aids.borrow_mut()[k] = Some(aid);
         Ret::Ok
     }
 
@@ -1177,6 +1278,19 @@ impl Interp {
                 None => return Ret::Skip,
             }
         };
+        let aid = self.k_aids.borrow().get(k).copied().flatten();
+        if let Some(a) = aid {
+            self.cleaning.borrow_mut().push(a);
+        }
+        struct Pop<'a>(&'a Interp, bool);
+        impl Drop for Pop<'_> {
+            fn drop(&mut self) {
+                if self.1 {
+                    self.0.cleaning.borrow_mut().pop();
+                }
+            }
+        }
+        let _pop = Pop(self, aid.is_some());
         unsafe { &*p }.clean();
         Ret::Ok
     }
@@ -1189,6 +1303,7 @@ impl Interp {
         };
         match taken {
             Some(c) => {
+                self.k_aids.borrow_mut()[k] = None;
                 drop(c);
                 Ret::Ok
             }
@@ -1205,6 +1320,7 @@ impl Interp {
         let execs_before = state::executions_count().unwrap_or(0);
         self.explicit_collects.set(0);
         self.alloc_attempts.set(0);
+        self.cb_ops_ran.set(false);
         let res = catch_unwind(AssertUnwindSafe(|| self.exec_op(op, &ctx)));
         // C11 / C12 oracle: an explicit collect_cycles() on an idle collector starts exactly one collection
         // (nested requests are no-ops); no other operation but allocation may start one, and at most one
